@@ -218,6 +218,12 @@ func TestHostileChips(t *testing.T) {
 		// the hostile chip
 		ho := o
 		sc.apply(&ho)
+		if ho.DowngradeCA {
+			ho.DowngradePos = rapid.IntRange(0, 2).Draw(rt, "downgradePos")
+			ho.DowngradeKind = rapid.IntRange(0, 2).Draw(rt, "downgradeKind")
+			rep["downgradePos"], rep["downgradeKind"] = ho.DowngradePos, ho.DowngradeKind
+			evid.Count(fmt.Sprintf("downgrade-pos%d-kind%d", ho.DowngradePos, ho.DowngradeKind), 1)
+		}
 		hp, err := persona.Build(ho)
 		if err != nil {
 			evid.Infra(rt, "persona.Build (hostile): %v", err)
